@@ -61,8 +61,8 @@ class Check(Property):
             out.append({"kind": "object", "a": a, "mtype": rng.choice(["int", "float", "fraction", "decimal", "array", "array2"]),
                         "ops": [{"op": "reset"}, {"op": "ser", "f": "tuple", "a": a}, {"op": "ser", "f": "unpickle", "a": a}, {"op": "reset"}]})
         for on in OPS:
-            for ka in ("q", "unit", "qarr", "meas"):
-                for kb in ("q", "unit", "qarr", "meas"):
+            for ka in ("q", "unit", "qarr", "meas", "gq", "gunit"):
+                for kb in ("q", "unit", "qarr", "meas", "gq", "gunit"):
                     self.bump("cross")
                     out.append({"kind": "cross", "op": on, "a": ka, "b": kb, "ops": [{"op": "ser", "f": "cross", "op_": on, "op": "ser"}]})
         self.bump("exceptions")
@@ -134,6 +134,15 @@ class Check(Property):
 
     def objs(self, u, kind):
         import numpy as np
+        import pint
+        if kind in ("gq", "gunit"):
+            # the generic top-level classes: instances belong to whichever application registry is set when they are built
+            old = pint.application_registry.get()
+            pint.set_application_registry(u)
+            try:
+                return pint.Quantity(2, "meter") if kind == "gq" else pint.Unit("meter")
+            finally:
+                pint.set_application_registry(old)
         if kind == "q":
             return u.Quantity(2, "meter")
         if kind == "unit":
